@@ -298,6 +298,38 @@ class ExclDomain(TagDomain):
     return super().ext_call(dotted, args, kwargs, node, st, eng)
 
 
+def rule_stable_softmax(repo, rep):
+  R = 'R-FORM:stable-softmax'
+  rep.rule(R, 'the soft-max over the self-excluded squared distances is '
+           'exp(-d - logsumexp(-d, axis=1)[:, None]) (or an equivalent '
+           'max-shifted form computed after the self-exclusion): a naive '
+           'exp(-d) / sum underflows to 0/0 for large-scale features, and '
+           'fit then fails or returns non-finite components')
+  for key in ('nca.NCA._loss_grad_lbfgs', 'mlkr.MLKR._loss'):
+    f = repo.get_func(key)
+    exps = [c for c in astutil.calls_in(f.node)
+            if canon(repo.dotted(f.module, c.func) or '') == canon(
+                'numpy.exp')]
+    if not exps:
+      rep.unknown(R, key, site(f), 'no exponential found')
+      continue
+    for e in exps:
+      arg = ast.unparse(e.args[0]) if e.args else ''
+      import re
+      m = re.match(r'^-\s*(\w+) - logsumexp\(-\s*(\w+), axis=1\)\[:, '
+                   r'(np\.newaxis|None)\]$', arg)
+      if m and m.group(1) == m.group(2):
+        rep.derived(R, key, site(f, e),
+                    sample=dict(rule=R, function=key, softmax=arg))
+      elif 'logsumexp' in arg or 'softmax' in arg:
+        rep.unknown(R, key, site(f, e), 'soft-max form %s not in the table'
+                    % arg)
+      else:
+        rep.refuted(R, key, site(f, e), 'soft-max computed as exp(%s) '
+                    'without the logsumexp normaliser: it underflows for '
+                    'large-scale features' % arg)
+
+
 def rule_self_exclusion(repo, rep):
   R = 'R-DOM:point-is-not-its-own-neighbour'
   rep.rule(R, 'in the NCA and MLKR objectives np.fill_diagonal(<pairwise '
@@ -386,6 +418,7 @@ def check(repo, rep, tier):
   rule_lmnn_acceptance(repo, rep)
   rule_optimizer_handoff(repo, rep)
   rule_self_exclusion(repo, rep)
+  rule_stable_softmax(repo, rep)
   rule_lmnn_objective(repo, rep)
 
 
